@@ -80,6 +80,10 @@ pub struct RunCtx {
     /// its behalf, through a span whose parent is given explicitly.
     #[cfg(feature = "tracing")]
     pub behalf: RefCell<Option<(tracing::Span, usize)>>,
+    /// tracing runs (`Plan.late_logs`): spans of callbacks that have returned, kept alive by a helper
+    /// which logs once more inside them before letting them close (index of the callback's log entry).
+    #[cfg(feature = "tracing")]
+    pub detained: RefCell<std::collections::VecDeque<(tracing::Span, usize)>>,
 }
 
 thread_local! {
@@ -105,6 +109,8 @@ pub fn install_run(core: &Rc<SimCore>, plan: &Rc<Plan>, emit_logs: bool) -> Rc<R
         warn_filter: emit_logs && warn_filter_of(plan),
         #[cfg(feature = "tracing")]
         behalf: RefCell::new(None),
+        #[cfg(feature = "tracing")]
+        detained: RefCell::new(std::collections::VecDeque::new()),
     });
     RUN.with(|r| *r.borrow_mut() = Some(Rc::clone(&ctx)));
     ctx
@@ -163,8 +169,25 @@ fn emit_log(tok: &str) {
         return;
     }
     // message shapes: plain, multi-line, and containing the collector's `__` separator
-    match tok.bytes().map(u32::from).sum::<u32>() % 7 {
+    match tok.bytes().map(u32::from).sum::<u32>() % 9 {
         0 => tracing::info!("{tok}"),
+        // from a real helper thread that enters the callback's span (run in strict hand-off: this thread
+        // blocks until the helper is done, so the schedule stays the simulator's)
+        7 => {
+            let here = tracing::Span::current();
+            std::thread::scope(|s| {
+                s.spawn(|| here.in_scope(|| tracing::info!("helper thread {tok}"))).join().expect("helper thread");
+            });
+        }
+        // from a real helper thread, through a span of its own whose parent is given explicitly
+        8 => {
+            let here = tracing::Span::current();
+            std::thread::scope(|s| {
+                s.spawn(|| tracing::info_span!(parent: &here, "on_thread").in_scope(|| tracing::info!("helper thread explicit parent {tok}")))
+                    .join()
+                    .expect("helper thread");
+            });
+        }
         // from a span whose parent is given explicitly (the step / hook span), created while another,
         // detached span is the current one - what a helper task logging on behalf of the step does
         6 => {
@@ -240,6 +263,27 @@ pub fn emit_on_behalf() {
         tracing::warn_span!(parent: &span, "on_behalf").in_scope(|| tracing::warn!("helper task {t}"));
     } else {
         tracing::info_span!(parent: &span, "on_behalf").in_scope(|| tracing::info!("helper task {t}"));
+    }
+}
+
+/// The helper outliving a callback: logs once inside the callback's span (on this thread or on a real
+/// helper thread in strict hand-off) and lets the span close there.
+#[cfg(feature = "tracing")]
+pub fn emit_late(span: tracing::Span, idx: usize, via_thread: bool) {
+    let ctx = run_ctx();
+    let t = format!("log{}", ctx.new_token());
+    ctx.cb_log.borrow_mut()[idx].log_tokens.push(t.clone());
+    let warn = ctx.warn_filter;
+    let go = move || {
+        span.in_scope(|| if warn { tracing::warn!("late helper {t}") } else { tracing::info!("late helper {t}") });
+        drop(span);
+    };
+    if via_thread {
+        std::thread::scope(|s| {
+            s.spawn(go).join().expect("helper thread");
+        });
+    } else {
+        go();
     }
 }
 
@@ -319,6 +363,14 @@ async fn callback(
         }
     }
     log_n(beh.logs.1);
+    // hand a clone of this callback's span to a helper that outlives the callback
+    #[cfg(feature = "tracing")]
+    if ctx.emit_logs && ctx.plan.late_logs && (idx as u64 + ctx.plan.seed) % 4 == 1 {
+        let span = tracing::Span::current();
+        if !span.is_none() {
+            ctx.detained.borrow_mut().push_back((span, idx));
+        }
+    }
 
     let exit = ctx.core.now_ns();
     ctx.core.progress();
